@@ -532,6 +532,16 @@ func (db *DB) ResetLocalState(ctx context.Context) error {
 	}
 	defer db.execSem.Release(1)
 
+	// Also wait for an in-flight replica upload. It may be about to publish a
+	// level-0 file that this reset discards locally; the next sync would then
+	// re-baseline below it and reuse its TXID for different content.
+	if db.Replica != nil {
+		if err := db.Replica.lockSync(ctx); err != nil {
+			return err
+		}
+		defer db.Replica.syncSem.Release(1)
+	}
+
 	db.Logger.Info("resetting local litestream state",
 		"meta_path", db.metaPath,
 		"ltx_dir", db.LTXDir())
